@@ -614,3 +614,24 @@ Proof.
   - apply Exists_exists in Ex. destruct Ex as [a [Ha Hn]]. apply (Out a Ha Hn).
 Qed.
 End Honest.
+
+(* ---- cancellation (C03) ---------------------------------------------------------------------- *)
+Lemma after_select_terminated c s cause s' : term s <> None -> after_select c s cause = Ok s' -> s' = s.
+Proof.
+  intros T H. unfold after_select in H.
+  assert (TT: forall r, terminate s r = s) by (intro r; unfold terminate; destruct (term s); [reflexivity|congruence]).
+  destruct (stop_fn _ _); [rewrite TT in H; inversion H; reflexivity|].
+  destruct (starvation _); [rewrite TT in H; inversion H; reflexivity|].
+  destruct (lookup_termination _ _); [rewrite TT in H; inversion H; reflexivity|].
+  destruct (closest_n_in_states _ _ _ _); cbn [bind] in H; try discriminate.
+  destruct (term s); [inversion H; reflexivity|congruence].
+Qed.
+
+Theorem cancel_prompt c env s s' : step c env s Cancel = Some (Ok s') ->
+  term s' = Some Cancelled /\ reqs s' = reqs s /\ ps s' = ps s.
+Proof.
+  intro H. unfold step in H. destruct (term s) eqn:T; [discriminate|]. inversion H as [H1]; clear H.
+  assert (TC: term (terminate s Cancelled) = Some Cancelled) by (unfold terminate; rewrite T; reflexivity).
+  apply after_select_terminated in H1; [|rewrite TC; discriminate]. subst s'.
+  split; [exact TC|]. unfold terminate. rewrite T. split; reflexivity.
+Qed.
